@@ -60,4 +60,5 @@ try:
     json.dump(meta, open(os.path.join(dest, 'meta.json'), 'w'), indent=1)
     print('KEPT', name, json.dumps(caught))
 finally:
-    sh(f'git -C /repo worktree remove --force {wt}; rm -rf {wt} {wt}-demo /verif/out/alt.*')
+    sfx = hashlib.md5(wt.encode()).hexdigest()[:8]
+    sh(f'git -C /repo worktree remove --force {wt}; rm -rf {wt} {wt}-demo /verif/out/alt.{sfx}.* /verif/out/bin/vcheck.{sfx} /verif/out/bin/vcheck-race.{sfx}')
